@@ -16,10 +16,17 @@ from .runner import R, bad
 def routes_agree(name, f, spec, canon, first_positional_only=0):
   """spec: ordered [(parameter name, factory of a fresh value)]."""
   names = [n for n, _ in spec]
+  changed = []
   def call(npos):
-    args = [mk() for _, mk in spec[:npos]]
-    kw = {n: mk() for n, mk in spec[npos:]}
-    return canon(f(*args, **kw))
+    vals = [mk() for _, mk in spec]
+    args = vals[:npos]
+    kw = {n: v for (n, _), v in zip(spec[npos:], vals[npos:])}
+    out = canon(f(*args, **kw))
+    # containers handed over by the caller are the caller's: they must be unchanged afterwards
+    for (n, mk), v in zip(spec, vals):
+      if isinstance(v, (list, dict, tuple)) and repr(v) != repr(mk()):
+        changed.append((n, repr(mk())[:200], repr(v)[:200]))
+    return out
   results = []
   for npos in range(first_positional_only, len(spec) + 1):
     try:
@@ -30,6 +37,9 @@ def routes_agree(name, f, spec, canon, first_positional_only=0):
   if isinstance(ref, str) and ref.startswith("EXC"):
     return bad("routes:exception", "%s raised when called with its documented parameters" % name,
                {"parameters": names, "positional": ref_n}, ref, True)
+  if changed:
+    n, before, after = changed[0]
+    return bad("routes:argument-changed", "%s changed the %s container it was given" % (name, n), before, after, True)
   for npos, got in results[1:]:
     if got != ref:
       return bad("routes:differ", "%s gives different results depending on which of its documented parameters "
